@@ -320,7 +320,9 @@ func Unmarshal(data []byte) (*VAA, error) {
 
 	payload := make([]byte, reader.Len())
 	n, err := reader.Read(payload)
-	if err != nil || n == 0 {
+	// An empty payload is what Marshal writes for a message without payload; the reader
+	// reports it as io.EOF.
+	if err != nil && err != io.EOF {
 		return nil, fmt.Errorf("failed to read payload [%d]: %w", n, err)
 	}
 	v.Payload = payload[:n]
